@@ -37,7 +37,7 @@ def probes(ctx):
 
 
 def run(ctx):
-    cov, viol = E.run_engine(ctx, "c12", ["plain", "flags"], 160, 4000, CLASSES)
+    cov, viol = E.run_engine(ctx, "c12", ["plain", "flags"], 160, 4000, CLASSES, small=(True, 8, 150))
     d, v2 = probes(ctx)
     cov["runtime_probes"] = d
     ld = loader_atomicity(ctx)
